@@ -39,6 +39,9 @@ def alphabets(tier: str) -> Any:
 
 def items(tier: str) -> List[Any]:
     full, small = alphabets(tier)
+    # conditions with an operand produced in another block are still direct checks (the outside operand is free)
+    for a in (small[0], small[1], ["global GroupSize", "int 2", "!="], ["txn GroupIndex", "int 1", ">="]):
+        full = full + A.cross_block(a)
     out: List[Any] = [("direct", s) for s in spaces.layered(full, small, tier)]
     # soundness-only: atoms routed through stack shuffles
     sh = []
@@ -49,6 +52,13 @@ def items(tier: str) -> List[Any]:
         if s not in seen:
             seen.add(s)
             out.append(("shuffle", s))
+    from mc.gen import raw  # pylint: disable=import-outside-toplevel
+
+    for atom in [["global GroupSize", "int 2", "=="], ["txn GroupIndex", "int 1", "<"], ["global GroupSize", "int 2", "!="]]:
+        for s in raw.with_atom(atom, 4 if tier == "quick" else 5):
+            if s not in seen:
+                seen.add(s)
+                out.append(("g1a", s))
     for s in spaces.unresolvable_constants([x for m, x in out if m == "direct"], 3000 if tier == "quick" else 20000):
         if s not in seen:
             seen.add(s)
@@ -65,6 +75,13 @@ def worker(item: Any, res: runner.Result) -> None:  # pylint: disable=too-many-l
     from mc import abstract  # pylint: disable=import-outside-toplevel
 
     mode, src = item
+    if mode == "g1a":
+        from mc.asm import tokenize  # pylint: disable=import-outside-toplevel
+        from mc.refcfg import RefGraph  # pylint: disable=import-outside-toplevel
+
+        if not RefGraph(tokenize(src)).entered_only_through_callsub():
+            res.count("filtered_bodies_not_entered_only_through_callsub")
+            return
     try:
         case = sem.Case(src)
     except BaseException as e:  # pylint: disable=broad-except
@@ -103,7 +120,7 @@ def worker(item: Any, res: runner.Result) -> None:  # pylint: disable=too-many-l
         if len(gs) not in (0, 16) or len(gi) not in (0, 16):
             nontrivial = True
     # exactness on the direct-check fragment
-    if mode == "direct":
+    if mode in ("direct", "g1a"):
         abstract.check_c06_exact(case, item, res)
     res.outcome(tuple(outcome))
     if nontrivial:
